@@ -211,6 +211,32 @@ def _functions(tree, cls):
                     yield m
 
 
+def _state_rows(fn, fname, relfile):
+    """Session state: every `self.<attr> = ...` of the function with the number of conditions/loops it is nested in.  The model
+    starts every open from empty registries and, without a Root link, from a root it creates: an assignment that becomes
+    conditional (or disappears) lets state of a previous session of the same Workspace object leak into the next."""
+    rows, seen = [], {}
+
+    def rec(stmts, depth):
+        for st in stmts:
+            if isinstance(st, ast.Assign):
+                for tg in st.targets:
+                    if isinstance(tg, ast.Attribute) and isinstance(tg.value, ast.Name) and tg.value.id == "self":
+                        base = f"assign:{tg.attr}"
+                        n = seen.get(base, 0) + 1
+                        seen[base] = n
+                        rows.append((fname, base if n == 1 else f"{base}#{n}", "handled", f"depth={depth}", f"{relfile}:{st.lineno}"))
+            for field in ("body", "orelse", "finalbody"):
+                sub = getattr(st, field, None)
+                if isinstance(sub, list) and sub and isinstance(sub[0], ast.stmt):
+                    rec(sub, depth + (0 if isinstance(st, ast.With) else 1))
+            for h in getattr(st, "handlers", []) or []:
+                rec(h.body, depth + 1)
+
+    rec(fn.body, 0)
+    return rows
+
+
 def reader_rows(repo: Path):
     rows = []
     src = repo / "geoh5py/io/h5_reader.py"
@@ -233,6 +259,7 @@ def reader_rows(repo: Path):
             for s in fn.body:
                 v.visit(s)
             rows += v.rows
+            rows += _state_rows(fn, f"Workspace.{fn.name}", "geoh5py/workspace/workspace.py")
             found.add("ws." + fn.name)
     need = {"fetch_attributes", "fetch_children", "fetch_property_groups", "fetch_type_attributes", "fetch_value_map", "fetch_values",
             "fetch_array_attribute", "fetch_metadata", "fetch_uuids", "fetch_project_attributes", "ws.open", "ws.fetch_or_create_root",
